@@ -225,7 +225,7 @@ class RealWorld(object):
         mid = getattr(d, 'msgId', None)
         if d.called:
             res = []
-            d.addBoth(res.append)
+            d.addBoth(lambda r: (res.append(r), 'application-result')[1])       # an application callback need not return None
             r = res[0] if res else None
             if isinstance(r, failure.Failure):
                 self.obs('ret fail %s' % err_name(r))
@@ -237,9 +237,11 @@ class RealWorld(object):
         self.obs('ret pending %d %s' % (i, '-' if mid is None else str(mid)))
         def cb(v, i=i):
             self.obs('fired %d ok %s' % (i, fmt_val(v)))
+            return 'application-result'
         def eb(f, i=i):
             self.obs('fired %d fail %s' % (i, err_name(f)))
             self.run_reentrant()
+            return 'application-result'
         d.addCallbacks(cb, eb)
 
     def run_reentrant(self):
